@@ -25,6 +25,8 @@ func init() { register("C18", checkC18) }
 type freshness struct {
 	w       *World
 	retMemo map[*ssa.Function]int // 0 unknown, 1 fresh, 2 not, 3 in progress
+	depth   int                   // nesting of returnsFresh evaluations
+	assumed bool                  // an in-progress function was assumed fresh (co-induction)
 }
 
 func isDataType(t types.Type) bool {
@@ -186,10 +188,17 @@ func (f *freshness) returnsFresh(fn *ssa.Function) bool {
 	switch f.retMemo[fn] {
 	case 1:
 		return true
-	case 2, 3:
+	case 2:
 		return false
+	case 3:
+		// a cycle (a helper that returns its own parameter appended to, called with its own
+		// earlier result): freshness is a greatest fixed point — assume it inside the cycle; the
+		// evaluation that started the cycle still needs every other source to be fresh
+		f.assumed = true
+		return true
 	}
 	f.retMemo[fn] = 3
+	f.depth++
 	ok, n := true, 0
 	instrsOf(fn, func(in ssa.Instruction) {
 		ret, isRet := in.(*ssa.Return)
@@ -206,12 +215,19 @@ func (f *freshness) returnsFresh(fn *ssa.Function) bool {
 			}
 		}
 	})
-	if ok && n > 0 {
+	f.depth--
+	switch {
+	case !(ok && n > 0):
+		f.retMemo[fn] = 2
+	case f.assumed && f.depth > 0:
+		delete(f.retMemo, fn) // true only under an assumption of an enclosing evaluation: not memoised
+	default:
 		f.retMemo[fn] = 1
-		return true
 	}
-	f.retMemo[fn] = 2
-	return false
+	if f.depth == 0 {
+		f.assumed = false
+	}
+	return ok && n > 0
 }
 
 // fromData: does v derive from template data (an interface{}-typed or container-typed parameter,
